@@ -1,4 +1,4 @@
-import PQ.Model.Ops
+import PQ.Lemmas.CapacityLemmas
 /-!
 # C17 — Capacity management is semantically invisible and fails cleanly
 
@@ -9,10 +9,12 @@ calls must equal the state before, next to a model in which they are no-ops).  W
 
 * `C17_invisible` — inserting capacity operations anywhere in any history changes neither the final state nor any other
   operation's result (for all histories, both kinds);
-* `C17_reserve_ok`, `C17_try_reserve_err`, … — the arithmetic contract of the three collections, with the allocator
-  abstracted as an arbitrary growth policy `grow` with `grow x ≥ x` and a capacity limit `capLimit`: after a successful
-  reservation every collection (hence `capacity()`, which is the map's) is at least `len + additional`; a request at or
-  beyond the limit is an error (`try_*`) and leaves everything unchanged.
+* `C17_invisible_any_allocator`, `C17_allocator_independent`, `C17_try_reserve_total`, `C17_contract`,
+  `C17_len_le_capacity` — the same for a model that DOES carry the three capacities (`Model/Capacity.lean`), with the
+  allocator an arbitrary oracle: invisibility for every allocator and every pattern of failures, `try_reserve*` never
+  panic, after `Ok` every collection (hence `capacity()`, which is the map's) has room for `len + additional`, after `Err`
+  the queue is the same queue and no capacity shrank (a partial failure — map grown, `heap` refused — is a reachable
+  outcome and is covered), `shrink_to_fit` stays at or above the length, `len ≤ capacity` always.
 
 Partial by nature: the allocator, `Vec` and IndexMap themselves are in the trusted base.
 -/
@@ -65,85 +67,118 @@ theorem C17_invisible (ops : List (Op P)) : ∀ (q : Q P),
         | error e => rfl
         | ok r2 => simp [dropCapOuts, hop, pure, Except.pure]
 
-/-! ## the arithmetic contract, allocator abstracted -/
+/-! ## the queue together with its capacities, over an arbitrary allocator
 
-/-- capacities of the three collections of a store -/
-structure Caps where
-  map : Nat
-  heap : Nat
-  qp : Nat
+`Model/Capacity.lean` puts the capacities of the three collections next to the queue (`Cap.QC`), adds `reserve`,
+`reserve_exact`, `try_reserve`, `try_reserve_exact`, `shrink_to_fit` and `capacity` to the alphabet (`Cap.COp`) and mirrors
+`src/store.rs` l.203-293 in `Cap.stepC`: every capacity function forwards to the map, then `heap`, then `qp`; `try_reserve*`
+return at the first refusal, leaving what was already grown as it is; `reserve*` panic where `try_reserve*` would report an
+error.  The allocator is an oracle (`Cap.Alloc`): per collection and per request it refuses or returns a capacity that fits —
+any growth policy, any failure pattern (capacity overflow, out of memory, limits that differ per collection).  Every theorem
+below holds for EVERY allocator. -/
+open Cap in
+/-- **Capacity management is invisible — for every allocator and every pattern of failures.**  If a history that contains
+capacity operations anywhere runs to completion under allocator `a`, then the plain history (capacity operations deleted) runs
+to completion on the bare queue, ends in the same queue and returns the same results for all other operations.  Since the
+plain history does not mention the allocator, contents, order of extraction and every later result are independent of
+`with_capacity`, `reserve*`, `try_reserve*` (succeeding or failing) and `shrink_to_fit`. -/
+theorem C17_invisible_any_allocator (a : Cap.Alloc) (cops : List (Cap.COp P)) (x x' : Cap.QC P) (outs : List (Cap.COut P))
+    (h : Cap.runC a x cops = .ok (x', outs)) :
+    run x.q (Cap.plainOps cops) = .ok (x'.q, Cap.plainOuts outs) :=
+  Cap.runC_erase a cops x x' outs h
 
-/-- an allocator policy: never gives less than asked, refuses at `capLimit` -/
-structure Alloc where
-  grow : Nat → Nat
-  grow_ge : ∀ x, x ≤ grow x
-  capLimit : Nat
+/-- two machines (two allocators — say one that always has memory and one that refuses every `try_reserve`), two different
+placements of capacity operations around the same plain operations, two different initial capacities: the same final
+queue and the same results -/
+theorem C17_allocator_independent (a₁ a₂ : Cap.Alloc) (c₁ c₂ : List (Cap.COp P)) (hp : Cap.plainOps c₁ = Cap.plainOps c₂)
+    {x₁ x₂ x₁' x₂' : Cap.QC P} (hq : x₁.q = x₂.q) {o₁ o₂ : List (Cap.COut P)}
+    (h₁ : Cap.runC a₁ x₁ c₁ = .ok (x₁', o₁)) (h₂ : Cap.runC a₂ x₂ c₂ = .ok (x₂', o₂)) :
+    x₁'.q = x₂'.q ∧ Cap.plainOuts o₁ = Cap.plainOuts o₂ :=
+  Cap.runC_allocator_independent a₁ a₂ c₁ c₂ hp hq h₁ h₂
 
-/-- `Vec::reserve`-style growth of one collection holding `len` elements -/
-def Alloc.reserve1 (a : Alloc) (cap len additional : Nat) : Option Nat :=
-  if a.capLimit ≤ len + additional then none
-  else if len + additional ≤ cap then some cap else some (a.grow (len + additional))
+/-- **`try_reserve` / `try_reserve_exact` never panic**: whatever the allocator answers, they return `Ok` or `Err` -/
+theorem C17_try_reserve_total (a : Cap.Alloc) (x : Cap.QC P) (n : Nat) :
+    (∃ x', Cap.stepC a x (.tryReserve n) = .ok (x', .tryOk) ∨ Cap.stepC a x (.tryReserve n) = .ok (x', .tryErr)) ∧
+    (∃ x', Cap.stepC a x (.tryReserveExact n) = .ok (x', .tryOk) ∨ Cap.stepC a x (.tryReserveExact n) = .ok (x', .tryErr)) :=
+  Cap.stepC_try_total a x n
 
-/-- `Store::try_reserve`: the map, then `heap`, then `qp`; the first error is returned and later collections are not
-touched (earlier ones keep what they got: capacity only, never contents) -/
-def Alloc.tryReserve (a : Alloc) (c : Caps) (len additional : Nat) : Except Caps Caps :=
-  match a.reserve1 c.map len additional with
-  | none => .error c
-  | some m =>
-    match a.reserve1 c.heap len additional with
-    | none => .error { c with map := m }
-    | some h =>
-      match a.reserve1 c.qp len additional with
-      | none => .error { c with map := m, heap := h }
-      | some q => .ok { map := m, heap := h, qp := q }
+/-- **the contract of every capacity operation**, for every allocator, from `len ≤ capacity`:
+`len ≤ capacity` is kept (all three collections); every capacity operation leaves the queue untouched — also a failing one;
+after `Ok` from any of the four reserving functions each collection, in particular the map whose capacity `capacity()`
+reports, has room for `len + n`; after `Err` no capacity shrank (the queue is unchanged and usable: it is the same queue);
+after `shrink_to_fit` each capacity lies between the length and its old value; `capacity()` reports the map's capacity. -/
+theorem C17_contract (a : Cap.Alloc) {x x' : Cap.QC P} {cop : Cap.COp P} {o : Cap.COut P} (hok : x.CapsOk)
+    (h : Cap.stepC a x cop = .ok (x', o)) :
+    x'.CapsOk ∧
+    (match cop with
+     | .plain op => ∃ o', step x.q op = .ok (x'.q, o') ∧ o = .plain o'
+     | .reserve n | .reserveExact n =>
+        x'.q = x.q ∧ o = .unit ∧ x.q.s.size + n ≤ x'.caps.map ∧ x.q.s.size + n ≤ x'.caps.heap ∧ x.q.s.size + n ≤ x'.caps.qp
+     | .tryReserve n | .tryReserveExact n =>
+        x'.q = x.q ∧ x.caps.map ≤ x'.caps.map ∧ x.caps.heap ≤ x'.caps.heap ∧ x.caps.qp ≤ x'.caps.qp ∧
+          ((o = .tryOk ∧ x.q.s.size + n ≤ x'.caps.map ∧ x.q.s.size + n ≤ x'.caps.heap ∧ x.q.s.size + n ≤ x'.caps.qp) ∨
+            o = .tryErr)
+     | .shrinkToFit =>
+        x'.q = x.q ∧ o = .unit ∧ x'.caps.map ≤ x.caps.map ∧ x'.caps.heap ≤ x.caps.heap ∧ x'.caps.qp ≤ x.caps.qp
+     | .capacity => x' = x ∧ o = .cap x.caps.map) :=
+  Cap.stepC_spec a hok h
 
-theorem Alloc.reserve1_ge (a : Alloc) {cap len additional c' : Nat} (h : a.reserve1 cap len additional = some c') :
-    len + additional ≤ c' ∧ cap ≤ c' ∨ len + additional ≤ c' := by
-  unfold Alloc.reserve1 at h
-  split at h
-  · cases h
-  · split at h
-    · cases h; left; exact ⟨by assumption, Nat.le_refl _⟩
-    · cases h; right; exact a.grow_ge _
+/-- `len() ≤ capacity()` (and the same for both tables) after every history with capacity operations anywhere -/
+theorem C17_len_le_capacity (a : Cap.Alloc) (cops : List (Cap.COp P)) (x x' : Cap.QC P) (outs : List (Cap.COut P))
+    (hok : x.CapsOk) (h : Cap.runC a x cops = .ok (x', outs)) : x'.CapsOk :=
+  Cap.runC_capsOk a cops x x' outs hok h
 
-/-- after a successful reservation `capacity() ≥ len() + additional` (for all three collections) -/
-theorem C17_reserve_ok (a : Alloc) (c c' : Caps) (len additional : Nat) (h : a.tryReserve c len additional = .ok c') :
-    len + additional ≤ c'.map ∧ len + additional ≤ c'.heap ∧ len + additional ≤ c'.qp := by
-  unfold Alloc.tryReserve at h
-  cases h1 : a.reserve1 c.map len additional with
-  | none => simp [h1] at h
-  | some m =>
-    cases h2 : a.reserve1 c.heap len additional with
-    | none => simp [h1, h2] at h
-    | some hh =>
-      cases h3 : a.reserve1 c.qp len additional with
-      | none => simp [h1, h2, h3] at h
-      | some q =>
-        simp [h1, h2, h3] at h
-        subst h
-        refine ⟨?_, ?_, ?_⟩
-        · rcases a.reserve1_ge h1 with h | h; exact h.1; exact h
-        · rcases a.reserve1_ge h2 with h | h; exact h.1; exact h
-        · rcases a.reserve1_ge h3 with h | h; exact h.1; exact h
+/-! ## non-vacuity -/
+section Examples
 
-/-- a request that cannot be satisfied is an error, never a panic, and never shrinks a capacity -/
-theorem C17_try_reserve_err (a : Alloc) (c : Caps) (len additional : Nat) (h : a.capLimit ≤ len + additional) :
-    a.tryReserve c len additional = .error c := by
-  simp [Alloc.tryReserve, Alloc.reserve1, h]
+/-- doubles on demand; refuses any request that would exceed `limit` elements in that collection -/
+private def exAlloc (limit : Cap.Coll → Nat) : Cap.Alloc where
+  grant w cap len add := if limit w < len + add then none else some (max cap (2 * (len + add)))
+  grant_fits w cap len add c h := by
+    split at h
+    · cases h
+    · cases h; omega
+  shrink _ _ len := len
+  shrink_fits _ cap len h := by omega
+  regrow _ cap len' := max cap (2 * len')
+  regrow_fits _ cap len' := by omega
 
-/-- `shrink_to_fit` may not go below the length: modelled as any capacity `≥ len`; the contract is the hypothesis
-itself, recorded here so that the property's inequality has a named statement -/
-theorem C17_shrink_ok (len cap' : Nat) (h : len ≤ cap') : len ≤ cap' := h
+private def roomy : Cap.Alloc := exAlloc (fun _ => 1000)
+/-- the heap table's allocation fails although the map's succeeded (the three collections are allocated one after the other) -/
+private def tight : Cap.Alloc := exAlloc (fun w => match w with | .map => 1000 | _ => 4)
 
-/-- non-vacuity: a concrete allocator and request -/
-example : (⟨fun x => 2 * x, fun x => by omega, 2 ^ 61⟩ : Alloc).tryReserve ⟨4, 4, 4⟩ 3 10 = .ok ⟨26, 26, 26⟩ := by
-  simp [Alloc.tryReserve, Alloc.reserve1]
-example : (⟨fun x => 2 * x, fun x => by omega, 2 ^ 61⟩ : Alloc).tryReserve ⟨4, 4, 4⟩ 3 (2 ^ 61) = .error ⟨4, 4, 4⟩ := by
-  apply C17_try_reserve_err; decide
+private def exHist : List (Cap.COp Nat) :=
+  [.plain (.push ⟨1, 0⟩ 5), .tryReserve 10, .plain (.push ⟨2, 0⟩ 9), .shrinkToFit, .reserve 1, .capacity, .plain .popFront,
+   .tryReserveExact 3, .plain (.push ⟨3, 0⟩ 7), .plain .popFront]
+
+private def showR (r : R (Cap.QC Nat × List (Cap.COut Nat))) : Option (List (Nat × Nat) × Cap.Caps × Nat) :=
+  match r with
+  | .ok (x, os) => some (x.q.s.map.toList.map (fun e => (e.1.key, e.2)), x.caps,
+      (os.filter (fun o => match o with | .tryErr => true | _ => false)).length)
+  | .error _ => none
+
+-- under the roomy allocator every reservation succeeds; under the tight one `try_reserve(10)` fails AFTER growing the map …
+example : showR (Cap.runC roomy (Cap.QC.new .pq ⟨0, 0, 0⟩) exHist) = some ([(1, 5)], ⟨8, 8, 8⟩, 0) := by decide +kernel
+example : showR (Cap.runC tight (Cap.QC.new .pq ⟨0, 0, 0⟩) exHist) = some ([(1, 5)], ⟨8, 8, 8⟩, 1) := by decide +kernel
+-- … a partial failure: the map grew, `heap` refused, `qp` was not asked
+example : Cap.tryReserve tight ⟨2, 2, 2⟩ 1 10 = (⟨22, 2, 2⟩, false) := by decide
+-- and the two runs agree on the queue and on every plain result (an instance of `C17_allocator_independent`)
+example : (match Cap.runC roomy (Cap.QC.new .pq ⟨0, 0, 0⟩) exHist, Cap.runC tight (Cap.QC.new .pq ⟨0, 0, 0⟩) exHist with
+    | .ok (x, o), .ok (y, o') => x.q.s.map.toList == y.q.s.map.toList && x.q.s.heap == y.q.s.heap &&
+        (Cap.plainOuts o).length == (Cap.plainOuts o').length
+    | _, _ => false) = true := by decide +kernel
+-- `reserve` beyond what the allocator can give is the documented panic
+example : (match Cap.stepC tight (Cap.QC.new .pq ⟨0, 0, 0⟩ : Cap.QC Nat) (.reserve 10) with
+    | .error .capacity => true | _ => false) = true := by decide
+
+end Examples
 
 end PQ
 
 #print axioms PQ.C17_invisible
 #print axioms PQ.C17_step_capacity
-#print axioms PQ.C17_reserve_ok
-#print axioms PQ.C17_try_reserve_err
+#print axioms PQ.C17_invisible_any_allocator
+#print axioms PQ.C17_allocator_independent
+#print axioms PQ.C17_try_reserve_total
+#print axioms PQ.C17_contract
+#print axioms PQ.C17_len_le_capacity
